@@ -77,7 +77,8 @@ def _child_main(check, plan, wfd, gen=None):
             # traces (e.g. modified class-level defaults) in the long-lived worker
             plan = _plan_for(check, *gen)
         res = check.execute(plan, on_abort)
-        if gen is not None and (res.get('violations') or res.get('harness_error') or gen[2] < (8 if os.environ.get('VERIF_DIGEST_LOG') else 3)):
+        if gen is not None and (res.get('violations') or res.get('harness_error') or os.environ.get('VERIF_KEEP_PLAN')
+                                or gen[2] < (8 if os.environ.get('VERIF_DIGEST_LOG') else 3)):
             res['plan'] = plan
     except BaseException:  # noqa: BLE001
         res = {'harness_error': 'EXCEPTION', 'detail': traceback.format_exc()[-6000:]}
@@ -533,6 +534,9 @@ def single(check_id, tier, seed, index, out=sys.stdout):
         return 2
     for v in res.get('violations') or []:
         print(f"  clause={v.get('clause')} sig={v.get('sig')}\n  detail={str(v.get('detail'))[:3000]}", file=out)
+    if os.environ.get('VERIF_KEEP_PLAN') and res.get('plan') is not None:
+        _write_json(os.environ['VERIF_KEEP_PLAN'], {'check': check_id, 'plan': res['plan'], 'digest': res.get('digest'),
+                                                     'clause': None})
     print(f"run {index}: digest={res.get('digest')} steps={res.get('steps')} virtual_s={res.get('virtual_s')} "
           f"probes={res.get('probes')} faults={res.get('fault_counts')} known={res.get('known')}", file=out)
     return 1 if res.get('violations') else 0
